@@ -62,7 +62,7 @@ def set_universe(objs):
             if h in seen:
                 return
             seen.add(h)
-        except TypeError:
+        except Exception:     # unhashable, or a half-built instance whose generated __hash__ reads a missing field
             return
         out.append(x)
 
@@ -452,6 +452,10 @@ def rt_eq(a, b, _d=0):
         return len(ca) == len(cb) and all(x is y or rt_eq(x, y, _d + 1) for x, y in zip(ca, cb))
     if _dc.is_dataclass(a) and not isinstance(a, type) and type(a) is type(b) and _d < 6:
         return all(rt_eq(getattr(a, f.name, None), getattr(b, f.name, None), _d + 1) for f in _dc.fields(a) if f.compare)
+    if hasattr(type(a), '__pane_info__') and type(a) is type(b) and _d < 6:
+        # pane instances (possibly half-built by an unchecked constructor): the stored attributes
+        da, db = vars(a), vars(b)
+        return da.keys() == db.keys() and all(rt_eq(da[k], db[k], _d + 1) for k in da)
     import pane.converters as _C
     if isinstance(a, _C.Converter) and type(a) is type(b) and type(a).__eq__ is object.__eq__ and _d < 6:
         da, db = vars(a), vars(b)
@@ -593,6 +597,38 @@ def old(x):
     raise NotCheckable('old')
 
 
+OLD = {}
+OLD_PHASE = ['post']
+
+
+def old_get(key, thunk):
+    if OLD_PHASE[0] == 'pre':
+        v = thunk()
+        import types as _t
+        if isinstance(v, (_t.MappingProxyType, dict)):
+            v = dict(v)
+        elif isinstance(v, (list, set)):
+            v = type(v)(v)
+        OLD[key] = v
+        return v
+    if key not in OLD:
+        raise NotCheckable('old value not recorded')
+    return OLD[key]
+
+
+def closure_of(f):
+    f = getattr(f, '__func__', f)
+    return f'{f.__module__}:{f.__qualname__}' if hasattr(f, '__qualname__') else UNDEF
+
+
+def closure_free(f, name):
+    f = getattr(f, '__func__', f)
+    code = getattr(f, '__code__', None)
+    if code is None or name not in code.co_freevars:
+        return UNDEF
+    return f.__closure__[code.co_freevars.index(name)].cell_contents
+
+
 # ---- ghosts with a native definition -------------------------------------------------------------------------
 def ghost(name, *args):
     f = GHOSTS.get(name)
@@ -660,6 +696,9 @@ def namespace():
               'DuplicateKeyError', 'ProductErrorNode', 'SumErrorNode', 'ErrorNode', 'UnsupportedAnnotation'):
         ns[n] = getattr(_err, n)
     import pane.annotations as _ann
+    import pane.types as _pty
+    ns['ValueOrList'] = _pty.ValueOrList
+    ns['ValueOrListConverter'] = _pty.ValueOrListConverter
     ns['Condition'] = _ann.Condition
     ns['Tagged'] = _ann.Tagged
     import typing as _t
